@@ -1,25 +1,48 @@
 #!/bin/bash
-# run_seeds.sh [ids...]: applies each confirmed seeded change to /repo, runs the checks of ALL claimed properties,
-# records which checks report a violation, and undoes the change. /repo must be clean (commit hooks first).
-cd /verif
-if [ -n "$(git -C /repo status --porcelain)" ]; then echo "/repo is not clean; commit first" >&2; exit 2; fi
+# run_seeds.sh [ids...]: for each confirmed seeded change, applies it to a scratch worktree of /repo's HEAD (never to /repo
+# itself), runs the quick checks of the seed's own property and of every property that has a function under contract in a
+# package the change touches, records which checks report a violation (seeded/<id>/meta.json: detected_by, detected_how),
+# and removes the worktree. Evidence and replays of these runs go to a scratch directory, not to /verif/evidence.
+cd "$(dirname "$0")/.." || exit 2
+verif="$(pwd)"
+wt=$(mktemp -d /tmp/fvc-seedwt-XXXXXX); out=$(mktemp -d /tmp/fvc-seedout-XXXXXX)
+git -C /repo worktree add --detach "$wt" HEAD >/dev/null 2>&1 || { echo "cannot create worktree" >&2; exit 2; }
+trap 'git -C /repo worktree remove --force "$wt" >/dev/null 2>&1; rm -rf "$wt" "$out"' EXIT
 ids="$@"; [ -z "$ids" ] && ids=$(ls seeded)
-props=$(python3 -c "import json;print(' '.join(c['property_id'] for c in json.load(open('MANIFEST.json'))['checks']))")
 for id in $ids; do
   d=seeded/$id; [ -f $d/patch.diff ] || continue
-  git -C /repo apply $d/patch.diff || { echo "$id: patch does not apply"; continue; }
-  hits=""
-  for p in $props; do
-    out=$(./check $p 2>&1); rc=$?
-    if [ $rc -eq 1 ]; then hits="$hits $p"; echo "$out" | grep VIOLATION | sed "s/^/    /" | cut -c1-200 > /tmp/seed_$id_$p.txt; fi
-  done
-  git -C /repo apply -R $d/patch.diff
+  git -C "$wt" apply "$verif/$d/patch.diff" || { echo "$id: patch does not apply"; continue; }
   own=${id%%-*}
-  echo "$id: detected_by=[${hits# }] (own property $own)"
-  python3 - "$d/meta.json" "${hits# }" <<'PY'
+  props=$(python3 - "$verif" "$d/patch.diff" "$own" <<'PY'
+import json,sys,glob,re,os
+verif,patch,own=sys.argv[1:4]
+dirs=set()
+for ln in open(patch):
+    m=re.match(r'\+\+\+ b/(.*)/[^/]+$',ln)
+    if m: dirs.add('github.com/furiko-io/furiko/'+m.group(1))
+props=[own]
+for f in sorted(glob.glob(verif+'/evidence/C*.json')):
+    ev=json.load(open(f)); pid=ev['property_id']
+    for fn in ev['coverage'].get('functions_under_contract',[]):
+        pkg=re.sub(r'^\(\*?','',fn); pkg=re.sub(r'\)?\.[^./]+(\.[^./]+)?$','',pkg) if '(' in fn else fn.rsplit('.',1)[0]
+        pkg=pkg.rstrip(')')
+        if pkg in dirs and pid not in props: props.append(pid)
+print(' '.join(props))
+PY
+)
+  hits=""; how=""
+  for p in $props; do
+    o=$(FVC_REPO="$wt" FVC_OUT="$out" ./check $p 2>&1); rc=$?
+    if [ $rc -eq 1 ]; then
+      hits="$hits $p"
+      how="$how$(echo "$o" | grep VIOLATION | sed -E 's/.*obligation=([^ ]+).*/\1/' | head -4 | tr '\n' ' ')"
+    fi
+  done
+  git -C "$wt" apply -R "$verif/$d/patch.diff"
+  echo "$id: ran=[$props] detected_by=[${hits# }] $how"
+  python3 - "$d/meta.json" "${hits# }" "$how" "$props" <<'PY'
 import json,sys
-m=json.load(open(sys.argv[1])); m['detected_by']=sys.argv[2].split(); json.dump(m,open(sys.argv[1],'w'),indent=1)
+m=json.load(open(sys.argv[1])); m['detected_by']=sys.argv[2].split(); m['detected_how']=sys.argv[3].split(); m['checks_run']=sys.argv[4].split()
+json.dump(m,open(sys.argv[1],'w'),indent=1)
 PY
 done
-# evidence files were rewritten by the runs on modified trees: regenerate them on the clean tree
-for p in $props; do ./check $p >/dev/null 2>&1; done
